@@ -10,11 +10,14 @@ class BDag:
         self.tab = {}
         self.varnames = {}
         self.nvars = 0
+        self.sim = None
 
     def var(self, name=None):
         self.nvars += 1
         if name is None:
             name = 'v%d' % self.nvars
+        if name in self.varnames:
+            name = '%s#%d' % (name, self.nvars)     # variable names must be unique (models are keyed by name)
         nid = len(self.nodes)
         self.nodes.append(('var', name))
         self.varnames[name] = nid
@@ -42,6 +45,16 @@ class BDag:
             nid = len(self.nodes)
             self.nodes.append(('and', a, b))
             r = 2 * nid
+            sim = self.sim
+            if sim is not None and sim.exact:
+                # semantic folding of conjunctions that can never hold / always hold (exact truth tables are
+                # available while the job has few input bits): removes infeasible guard products at the source
+                sim.extend()
+                v = sim.vals[nid]
+                if v == 0:
+                    r = FALSE
+                elif v == sim.mask:
+                    r = TRUE
             self.tab[key] = r
         return r
 
@@ -185,28 +198,58 @@ class Evaluator:
 
 
 class RandomEvaluator:
-    """R pseudo-random models evaluated bit-parallel and incrementally; used as a cheap pre-check:
-    a literal whose value has some bit set is satisfiable (the witness model is that bit position)"""
+    """Bit-parallel simulation of the whole DAG, maintained incrementally; a cheap pre-check used only inside
+    the encoder (loop-continuation tests, pruning of alternatives), never for an obligation's verdict.
+
+    * while the job has at most EXHAUSTIVE variables the patterns are the complete truth tables (2^n bits per
+      node): a literal is satisfiable iff its table is non-zero, so the pre-check is exact in both directions;
+    * beyond that the existing patterns are kept as they are (they are still models) and new variables get
+      pseudo-random bits: a set bit is a witness model, all-zero means "unknown" and the caller asks the solver."""
+
+    EXHAUSTIVE = 11
 
     def __init__(self, dag, R=64, seed=12345):
         import random
         self.dag = dag
-        self.R = R
-        self.mask = (1 << R) - 1
+        self.R = 1                      # number of patterns (bits) per node
+        self.mask = 1
         self.rng = random.Random(seed)
         self.vals = [0]
+        self.nv = 0
+        self.exact = True
+        self.minR = R
+
+    def _double(self):
+        R = self.R
+        self.vals = [v | (v << R) for v in self.vals]
+        self.R = 2 * R
+        self.mask = (1 << self.R) - 1
 
     def extend(self):
         nodes = self.dag.nodes
         vals = self.vals
-        mask = self.mask
-        for n in range(len(vals), len(nodes)):
+        n = len(vals)
+        while n < len(nodes):
             nd = nodes[n]
             if nd[0] == 'var':
-                vals.append(self.rng.getrandbits(self.R))
+                self.nv += 1
+                if self.exact and self.nv <= self.EXHAUSTIVE:
+                    R = self.R
+                    self._double()
+                    vals = self.vals
+                    vals.append(((1 << R) - 1) << R)
+                else:
+                    if self.exact:
+                        self.exact = False
+                        while self.R < self.minR:
+                            self._double()
+                        vals = self.vals
+                    vals.append(self.rng.getrandbits(self.R))
             else:
+                mask = self.mask
                 a, b = nd[1], nd[2]
                 vals.append((vals[a >> 1] ^ (mask if a & 1 else 0)) & (vals[b >> 1] ^ (mask if b & 1 else 0)))
+            n += 1
 
     def value(self, l):
         if len(self.vals) < len(self.dag.nodes):
@@ -214,10 +257,12 @@ class RandomEvaluator:
         return self.vals[l >> 1] ^ (self.mask if l & 1 else 0)
 
     def witness(self, lits):
-        """index of a model satisfying all lits, or None"""
+        """index of a model satisfying all lits, or None (in exact mode None means unsatisfiable)"""
+        if len(self.vals) < len(self.dag.nodes):
+            self.extend()
         v = self.mask
         for l in lits:
-            v &= self.value(l)
+            v &= self.vals[l >> 1] ^ (self.mask if l & 1 else 0)
             if not v:
                 return None
         return (v & -v).bit_length() - 1
